@@ -146,11 +146,19 @@ def _ast_find_domain_rules():
 def op_table():
     ast_params = _ast_make_params()
     rows = []
-    for name in sorted(dir(ops)):
-        o = getattr(ops, name)
-        if not isinstance(o, ops.Op):
-            continue
-        cls = type(o)
+    from funsor.ops.op import _iter_subclasses
+    classes = {}
+    for cls in _iter_subclasses(ops.Op):
+        if isinstance(getattr(cls, "name", None), str) and hasattr(cls, "signature"):
+            classes.setdefault(cls.name, cls)
+    for name in sorted(classes):
+        cls = classes[name]
+        o = getattr(ops, name, None)
+        if not isinstance(o, ops.Op) or type(o) is not cls:
+            try:
+                o = cls()       # the default instance (ops that are exported only as a class, e.g. ReshapeOp)
+            except Exception:
+                continue
         mro = [c.__name__ for c in cls.__mro__ if isinstance(c, type) and issubclass(c, ops.Op)]
         params = []
         for i, (pn, p) in enumerate(cls.signature.parameters.items()):
